@@ -445,8 +445,80 @@ func TestVerifC04Brar(t *testing.T) {
 							res = "wrongstate"
 						}
 					}()
-					fmt.Fprintf(w, "watch ctx=%s stale=%s copyh=%d finalh=%d => %s\n", ctx, pk.when,
-						copyH, finalH, res)
+					gotState := int64(-1)
+					if got != nil {
+						gotState = int64(got.RevokedStateNum)
+					}
+					obfW := lnwallet.DeriveStateHintObfuscator(
+						sc.LocalChanCfg.PaymentBasePoint.PubKey, sc.RemoteChanCfg.PaymentBasePoint.PubKey)
+					if !sc.IsInitiator {
+						obfW = lnwallet.DeriveStateHintObfuscator(
+							sc.RemoteChanCfg.PaymentBasePoint.PubKey, sc.LocalChanCfg.PaymentBasePoint.PubKey)
+					}
+					fmt.Fprintf(w, "watch ctx=%s stale=%s copyh=%d finalh=%d seq=%d lock=%d obf=%x state=%d => %s\n",
+						ctx, pk.when, copyH, finalH, ctTx.TxIn[0].Sequence, ctTx.LockTime, obfW[:], gotState, res)
+					// The decision function itself on inputs that must NOT be taken for a
+					// breach: the same revoked transaction with one output value changed
+					// (same state hint, other txid) and the cheater's CURRENT commitment
+					// (its state number has no revocation-log entry).
+					negs := []struct {
+						name string
+						tx   *wire.MsgTx
+					}{{"tamper", ctTx.Copy()}, {"current", held[1-v][finalH]}}
+					negs[0].tx.TxOut[0].Value++
+					for _, ng := range negs {
+						if ng.tx == nil {
+							continue
+						}
+						resN := "nobreach"
+						var gotN *lnwallet.BreachRetribution
+						snN := uint64(0)
+						func() {
+							defer func() {
+								if rr := recover(); rr != nil {
+									resN = "panic"
+								}
+							}()
+							notifier := &lnmock.ChainNotifier{
+								SpendChan: make(chan *chainntnfs.SpendDetail, 1),
+								EpochChan: make(chan *chainntnfs.BlockEpoch),
+								ConfChan:  make(chan *chainntnfs.TxConfirmation, 1),
+							}
+							cwN, err := newChainWatcher(chainWatcherConfig{
+								chanState:           sc,
+								notifier:            notifier,
+								signer:              ch[v].Signer,
+								extractStateNumHint: lnwallet.GetStateNumHint,
+								contractBreach: func(br *lnwallet.BreachRetribution) error {
+									gotN = br
+									return nil
+								},
+							})
+							if err != nil {
+								resN = "err:watcher"
+								return
+							}
+							cs, err := newChainSet(sc)
+							if err != nil {
+								resN = "err:chainset"
+								return
+							}
+							hashN := ng.tx.TxHash()
+							snN = cwN.cfg.extractStateNumHint(ng.tx, cwN.stateHintObfuscator)
+							ok, err := cwN.handlePossibleBreach(&chainntnfs.SpendDetail{
+								SpentOutPoint: &sc.FundingOutpoint, SpenderTxHash: &hashN,
+								SpendingTx: ng.tx, SpendingHeight: 777,
+							}, snN, cs)
+							switch {
+							case err != nil:
+								resN = "err:" + c04Short(err)
+							case ok || gotN != nil:
+								resN = "breach"
+							}
+						}()
+						fmt.Fprintf(w, "watchneg ctx=%s case=%s finalh=%d seq=%d lock=%d obf=%x state=%d => %s\n",
+							ctx, ng.name, finalH, ng.tx.TxIn[0].Sequence, ng.tx.LockTime, obfW[:], snN, resN)
+					}
 					if got == nil {
 						continue
 					}
